@@ -308,6 +308,34 @@ fn check_valid(b: &ByteString, rep: &mut Report, what: &str) {
             if format!("{b}") != s || String::from(b.clone()) != s || h(b) != h(s) || *b != *s {
                 rep.t3("C20", &format!("ByteString {} disagrees with str on display/hash/eq", hex(raw)));
             }
+            // every other way of looking at the value agrees with the str
+            let as_bytes: &[u8] = b.as_ref();
+            let as_str: &str = b.as_ref();
+            let borrowed: &str = std::borrow::Borrow::borrow(b);
+            let same: &ByteString = b.as_ref();
+            if as_bytes != s.as_bytes() || as_str != s || borrowed != s || &**b != s || same != b || b.clone() != *b
+                || *b != s.to_string() || format!("{b:?}") != format!("{s:?}") || b.len() != s.len()
+            {
+                rep.t3("C20", &format!("ByteString {} disagrees with str on AsRef<[u8]>/AsRef<str>/Borrow<str>/Deref/Clone/PartialEq<String>/Debug", hex(raw)));
+            }
+            // serde: serialises like the str, and what is deserialised is the same valid string
+            match (serde_json::to_string(b), serde_json::to_string(s)) {
+                (Ok(jb), Ok(js)) => {
+                    if jb != js {
+                        rep.t3("C20", &format!("ByteString {} serialises to {jb} but the equal str to {js}", hex(raw)));
+                    }
+                    match serde_json::from_str::<ByteString>(&js) {
+                        Ok(back) => {
+                            let rb: &[u8] = back.as_bytes().as_ref();
+                            if std::str::from_utf8(rb).is_err() || rb != s.as_bytes() {
+                                rep.t3("C20", &format!("deserialising {js} gives ByteString {} instead of {}", hex(rb), hex(raw)));
+                            }
+                        }
+                        Err(e) => rep.t3("C20", &format!("deserialising {js} (the serialisation of a valid string) fails: {e}")),
+                    }
+                }
+                _ => rep.t3("C20", &format!("ByteString {} does not serialise", hex(raw))),
+            }
             if trace(b) != trace(s) {
                 rep.t3("C20", &format!("ByteString {} drives a Hasher differently from the equal str ({:?} vs {:?}): with a hasher that is not a byte stream the two hash differently, a map keyed by ByteString cannot be looked up by &str", hex(raw), trace(b), trace(s)));
             }
